@@ -24,6 +24,9 @@ def cases(tier, seed):
         for _ in range(n):
             g = gen.G(rnd, prof)
             out.append(dict(src=g.program(nstmts=rnd.randint(5, 14))[0], family=fam))
+    # programs of the whole-program judgement (Lang/GateDefProofs.v): the depth must be the recurrence over the judgement's events
+    for src in gen.loop_fragment_cases(random.Random(seed + 91), 120 if tier == "quick" else 2000):
+        out.append(dict(src=src, family="judgement-programs"))
     return out
 
 
@@ -69,6 +72,8 @@ def _history_worker(args):
 
 
 def direct(run, chk):
+    # (0) the whole-program theorem: depth counters = the recurrence over the events the judgement computes
+    direct.expansion = langcheck.expansion_oracle(run, chk)
     # (a) depth() on a fresh module must be the depth of the visit of a fresh unroll
     bad = 0
     for cs, o in zip(run.cases, run.outcomes):
@@ -140,7 +145,7 @@ def run(tier, seed, replay):
         return replay_cmd(replay)
     direct.histories = 0
     return langcheck.standard(PROP, tier, seed, cases(tier, seed), classify, direct=direct, spec_codes=(15,), extra_targets=("Module/ModuleSpec.vo",),
-                              extra_cov=lambda run: {"histories_checked": direct.histories,
+                              extra_cov=lambda run: {"histories_checked": direct.histories, "whole_program_theorem_judgement_on_real_programs": getattr(direct, "expansion", {}),
                                                      "transformation_histories_agreeing_with_machine": getattr(direct, "transform_histories", 0),
                                                      "depth_histogram": _hist(run)})
 
